@@ -157,6 +157,12 @@ class Interp:
         for k in reversed(self.mro(cls)):
             for n, d in k.fields: out[n] = (k, d)
         return out
+    def assigned_somewhere(self, cls, attr):
+        for k in self.mro(cls):
+            for node in k.methods.values():
+                for n in ast.walk(node):
+                    if isinstance(n, ast.Attribute) and n.attr == attr and isinstance(n.ctx, ast.Store) and isinstance(n.value, ast.Name) and n.value.id == "self": return True
+        return False
     def qualname(self, cls, mname): return f"{cls.module.name}.{cls.name}.{mname}"
     def get_func(self, dotted):
         """'mdpax.utils.spaces.create_range_space' or 'mdpax.x.Class.method' -> Func (unbound)"""
@@ -352,6 +358,13 @@ class Interp:
                 k, cv = self.find_class_attr(o.cls, a)
                 if cv is not None: return self.ev(cv, dict(k.module.globals), k.module)
             if "__getattr__" in o.attrs: return o.attrs["__getattr__"](a)
+            if isinstance(o.cls, ClassRef) and self.assigned_somewhere(o.cls, a):
+                # the class does assign this attribute (e.g. in a constructor phase), but the contract's hand-built pre-state does not provide it:
+                # the CONTRACT no longer covers the code -> engine limitation (undecided / bounded fallback), never a property violation
+                raise Unsupported(f"scenario pre-state of {o.label} lacks attribute '{a}', which the class assigns: the contract must be extended")
+            if not isinstance(o.cls, ClassRef) and o.label in ("config", "cfg"):
+                # hand-built partial stub of a configuration object: a field the code now reads is missing from the CONTRACT's scenario
+                raise Unsupported(f"scenario stub {o.label} lacks field '{a}': the contract must be extended")
             raise PyRaise(EXC["AttributeError"], f"{o.label} has no attribute {a}")
         if isinstance(o, ClassRef):
             k, node = self.find_method(o, a)
